@@ -35,32 +35,33 @@ ValueRules == {"Simplify", "FullSimplify", "Linearity", "CommonIntegral", "Defin
                "ElimInfInterval", "LHopital", "ReduceLimit", "ApplyIdentity", "SeriesExpansionIdentity", "SeriesEvaluationIdentity"}
 IsDerivStep(ev) == ev.e[1] = "deriv" /\ ev.rule \in {"DerivativeSimplify", "Sub:DerivativeSimplify"}
 
-\* <<set of failing clauses, non-trivial, divergence>>
+\* [fails: set of failing clauses, nt: non-trivial, dv: divergence]   (records: see the note in C19_Eval)
+V(f, nt, dv) == [fails |-> f, nt |-> nt, dv |-> dv]
 Verdict3(ev) ==
   CASE ev.kind = "rule" ->
-         IF ev.outcome # "ok" THEN <<{}, FALSE, FALSE>>
-         ELSE LET sv == IF ev.base \in ValueRules THEN SameValue(ev.e, ev.r, ev.conds) ELSE <<FALSE, FALSE>>
+         IF ev.outcome # "ok" THEN V({}, FALSE, FALSE)
+         ELSE LET sv == IF ev.base \in ValueRules THEN SameValue(ev.e, ev.r, ev.conds) ELSE [fails |-> FALSE, cmp |-> FALSE]
                   pp == PPFails(ev.r, ev.rpo, ev.rp) IN
-              << (IF sv[1] THEN {IF IsDerivStep(ev) THEN "DerivCorrect" ELSE "SameValue"} ELSE {})
-                 \cup (IF pp THEN {"PrintParseIdentity"} ELSE {}),
-                 sv[2],
-                 "rec" \in DOMAIN ev /\ Canon(ev.rec) # Canon(ev.r) >>
+              V((IF sv.fails THEN {IF IsDerivStep(ev) THEN "DerivCorrect" ELSE "SameValue"} ELSE {})
+                \cup (IF pp THEN {"PrintParseIdentity"} ELSE {}),
+                sv.cmp,
+                "rec" \in DOMAIN ev /\ Canon(ev.rec) # Canon(ev.r))
     [] ev.kind = "norm" ->
-         IF ev.outcome # "ok" THEN <<{}, FALSE, FALSE>>
+         IF ev.outcome # "ok" THEN V({}, FALSE, FALSE)
          ELSE LET sv == SameValue(ev.e, ev.n1, ev.conds) IN
-              << (IF ev.n1 # ev.n2 THEN {"NormalizeIdempotent"} ELSE {})
-                 \cup (IF sv[1] THEN {"NormalizePreservesValue"} ELSE {}),
-                 TRUE, FALSE >>
-    [] ev.kind = "pp" -> << IF PPFails(ev.e, ev.rpo, ev.rp) THEN {"PrintParseIdentity"} ELSE {}, Printable(ev.e, TRUE), FALSE >>
-    [] OTHER -> <<{}, FALSE, FALSE>>
+              V((IF ev.n1 # ev.n2 THEN {"NormalizeIdempotent"} ELSE {})
+                \cup (IF sv.fails THEN {"NormalizePreservesValue"} ELSE {}),
+                TRUE, FALSE)
+    [] ev.kind = "pp" -> V(IF PPFails(ev.e, ev.rpo, ev.rp) THEN {"PrintParseIdentity"} ELSE {}, Printable(ev.e, TRUE), FALSE)
+    [] OTHER -> V({}, FALSE, FALSE)
 
-\* <<set of failing clauses, non-trivial, divergence, class of the failure (bookkeeping only)>>
-Verdict(ev) == LET v == Verdict3(ev) IN
-  <<v[1], v[2], v[3],
-    IF ev.kind = "norm" /\ "NormalizeIdempotent" \in v[1] THEN (IF ev.n3 = ev.n2 THEN "second-pass-stable" ELSE "second-pass-unstable") ELSE "">>
+\* class of the failure (bookkeeping for the finding's key only)
+ClassOf(ev, fails) ==
+  IF ev.kind = "norm" /\ "NormalizeIdempotent" \in fails THEN (IF ev.n3 = ev.n2 THEN "second-pass-stable" ELSE "second-pass-unstable") ELSE ""
 
 TNext == l <= Len(Trace) /\
-         LET ev == Trace[l]  v == Verdict(ev) IN
-         IF v[1] # {} THEN TStepInfo(ev.tid, v[1], v[2], v[3], [tid |-> ev.tid, cls |-> v[4]]) ELSE TStep(ev.tid, v[1], v[2], v[3])
+         LET ev == Trace[l]  v == Verdict3(ev) IN
+         IF v.fails # {} THEN TStepInfo(ev.tid, v.fails, v.nt, v.dv, [tid |-> ev.tid, cls |-> ClassOf(ev, v.fails)])
+         ELSE TStep(ev.tid, v.fails, v.nt, v.dv)
 TSpec == TInit /\ [][TNext]_l
 =============================================================================
